@@ -28,10 +28,11 @@ def main():
                 out, cls = gen.Eval(g, mi_bits=30).run()
             except (gen.Discard, RecursionError): continue
             progs.append((sd, g, gen.Render(g).text(), out, cls)); k += 1
+    if os.environ.get('VF_C12_ONLY_BUILTINS'): npool = 2; nfresh = 0
     take('C12-pool', npool); take('C12-fresh-%d' % ctx.seed, nfresh)
     # opt-in shape: a curried counter whose innermost closure assigns a variable two environment levels up (after inlining at -Q3
     # this is a store through (EElt fmt env LEVEL idx) with LEVEL > 0; added after seeded change C12-java-eelt-store)
-    ncnt = ctx.q(10, 80)
+    ncnt = ctx.q(10, 80) if not os.environ.get('VF_C12_ONLY_BUILTINS') else 0
     take('C12-counter-pool', ncnt // 2, extra=('counters', 'closures')); take('C12-counter-fresh-%d' % ctx.seed, ncnt - ncnt // 2, extra=('counters', 'closures'))
     canaries = set()
     cp_ = os.path.join(VERIF, 'corpus', 'c12_canaries.txt')
@@ -49,7 +50,7 @@ def main():
         p = routes.aldor(b, [lv, '-Mno-warnings', '-Jmain', '-Fjava', name + '.as'], d, timeout=120)
         return u, p
     tr = pmap(trans, units)
-    supported = []; unsupported = 0; n = 0
+    supported = []; unsupported = 0; n = 0; q9hang = 0
     for (i, lv, name), p in tr:
         sd = progs[i][0]
         blob = p.out + p.err
@@ -60,10 +61,13 @@ def main():
             if '%s %s' % (sd, lv) in canaries:
                 ctx.violation('canary-no-longer-supported', '%s %s: %s' % (sd, lv, re.search(rb'Java not implemented[^\n]*', blob).group(0).decode(errors='replace')), {'x.as': progs[i][2]})
             continue
+        if (p.timeout or p.sig == 9) and lv == '-Q9':
+            # the optimiser not terminating at -Q9 is C02's recorded finding (hang:Q9-family); it is not a Java matter
+            q9hang += 1; continue
         if p.rc != 0 or p.timeout or not os.path.exists(os.path.join(d, 'aldorcode', name + '.java')):
             ctx.violation('java-generation-failed', '%s %s: %s %s' % (sd, lv, p.cause, blob[-300:].decode(errors='replace')), {'x.as': progs[i][2]}); continue
         supported.append((i, lv, name))
-    ctx.log('%d units translated, %d unsupported' % (len(supported), unsupported))
+    ctx.log('%d units translated, %d unsupported, %d skipped (-Q9 optimiser does not terminate)' % (len(supported), unsupported, q9hang))
     # one javac per chunk
     chunks = [supported[k:k + 8] for k in range(0, len(supported), 8)]
     def jc(ch):
@@ -92,6 +96,67 @@ def main():
         if p.timeout: ctx.violation('hang:java', '%s %s' % (sd, lv), files); continue
         if p.out.decode(errors='replace') != out or xc != cls:
             ctx.violation('java-differs', '%s %s: java gives %r/%s, expected %r/%s' % (sd, lv, p.out[-150:], xc, out[-150:], cls), files)
+    # ------------------------------------------------ builtin operations through the Java route (-Q0, so that the BCalls reach genjava)
+    # Operand and result values are kept within 31 bits (the Java back end's machine integer is a Java int); operations on
+    # Word, floats and arrays are left out (64-bit words; the Java runtime has no float dissembling to print exact bits).
+    # Oracle: the Python definitions of checks/c04.py on each operation's domain.
+    sys.path.insert(0, os.path.join(VERIF, 'checks'))
+    import c04, itertools
+    c04.MACHINE.update(c04.machine_exports(os.path.join(b.B, 'aldor', 'lib', 'libfoamlib', 'al', 'machine.as')))
+    OKT = {'Bool', 'Char', 'SInt', 'BInt', 'HInt', 'Byte'}
+    JNULL = {'BoolFalse': ['F'], 'BoolTrue': ['T'], 'CharSpace': ['32'], 'CharNewline': ['10'], 'CharTab': ['9'], 'Byte0': ['0'], 'Byte1': ['1'], 'HInt0': ['0'],
+             'HInt1': ['1'], 'SInt0': ['0'], 'SInt1': ['1'], 'SIntMin': ['-2147483648'], 'SIntMax': ['2147483647'], 'BInt0': ['0'], 'BInt1': ['1'],
+             'HIntMin': ['-32768'], 'HIntMax': ['32767'], 'ByteMin': ['0'], 'ByteMax': ['255']}      # constants, for a 32-bit machine integer
+    jops = [o for o in c04.parse_table(os.path.join(b.S, 'foam.c')) if c04.in_scope(o) and set(o['args']) | set(o['rets']) <= OKT and (o['args'] or o['name'] in JNULL)]
+    if ctx.tier == 'quick': jops = [o for k, o in enumerate(jops) if (k + ctx.seed) % 3 == 0]
+    def small(t, v):
+        if t in ('SInt',): return abs(v) < (1 << 30)
+        if t == 'BInt': return abs(v) < (1 << 100)
+        return True
+    def fits(lines):
+        for x in lines:
+            if re.fullmatch(r'-?\d+', x) and abs(int(x)) >= (1 << 31) and len(x) < 12: return False
+        return True
+    jd = ctx.tmp('jbuiltin'); os.makedirs(os.path.join(jd, 'out'))
+    jrng = random.Random('C12-builtins')
+    def jwork(op):
+        sets = [[v for v in c04.values(t, op, i, jrng, False) if small(t, v)] for i, t in enumerate(op['args'])]
+        tuples = [((), JNULL[op['name']])] if not op['args'] else []
+        for tup in (itertools.islice(itertools.product(*sets), 4000) if op['args'] else []):
+            mdl = c04.model(op, tup)
+            if mdl is None or mdl == 'TRAP': continue
+            if op['name'] in ('SIntShiftUp', 'SIntShiftDn', 'SIntBit') and tup[1] >= 31: continue      # the Java machine integer has 32 bits
+            if 'SInt' in op['rets'] and not all(re.fullmatch(r'-?\d+', x) is None or abs(int(x)) < (1 << 31) for x in mdl): continue
+            tuples.append((tup, mdl))
+        tuples = tuples[::max(1, len(tuples) // 60)][:60]
+        if not tuples: return op, None, None, None
+        nm = 'zqb' + op['name']
+        open(os.path.join(jd, nm + '.as'), 'w').write(c04.render(op, [t for t, _ in tuples]))
+        p1 = routes.aldor(b, ['-Q0', '-Mno-warnings', '-Jmain', '-Fjava', nm + '.as'], jd, timeout=120)
+        if p1.rc != 0: return op, tuples, ('translate', p1), None
+        p2 = run(['javac', '-nowarn', '-cp', CP, '-d', 'out', os.path.join('aldorcode', nm + '.java')], cwd=jd, timeout=300)
+        if p2.rc != 0: return op, tuples, ('javac', p2), None
+        p3 = run(['java', '-Xss8m', '-cp', CP + ':out', 'aldorcode.' + nm], cwd=jd, timeout=120)
+        return op, tuples, None, p3
+    nbops = 0; nbt = 0
+    for op, tuples, err, p3 in pmap(jwork, jops, workers=8):
+        if tuples is None: continue
+        nbops += 1
+        text = c04.render(op, [t for t, _ in tuples])
+        if err:
+            ctx.violation('java-builtin-fails:%s:%s' % (err[0], op['name']), '%s: %s' % (op['name'], (err[1].out + err[1].err)[-400:].decode(errors='replace')), {'x.as': text}); continue
+        outs = c04.split_out(p3.out)
+        for k, (tup, mdl) in enumerate(tuples):
+            got = c04.normf(outs.get(k, ['<missing>']))
+            n += 1; nbt += 1
+            if got != mdl:
+                if got in (['<missing>'], []) and p3.rc != 0:
+                    ex = re.search(rb'Exception[^\n]*\n\s*at ([\w.]+)', p3.err)
+                    ctx.violation('java-builtin-fails:run:%s' % op['name'], '%s%s: the Java program stops: %s' % (op['name'], tup, (p3.err[:300]).decode(errors='replace')), {'x.as': text})
+                else:
+                    ctx.violation('java-builtin-wrong:%s' % op['name'], '%s%s: Java prints %s, definition gives %s' % (op['name'], tup, got, mdl), {'x.as': text})
+                break
+    ctx.log('builtin sweep through Java: %d operations, %d tuples' % (nbops, nbt))
     if os.environ.get('VF_WRITE_CANARIES'):
         with open(cp_, 'w') as fh:
             for (i, lv, name) in supported:
